@@ -1407,6 +1407,11 @@ pub enum Edit {
     RenameField { p: usize, s: usize },
     /// interface: toggle derive(ToString) on struct s (only adds)
     AddDerive { p: usize, s: usize },
+    /// interface: the first two variants of enum e change places (every source stays valid, but
+    /// constructor indices baked into stale cores no longer mean the same variant)
+    SwapVariants { p: usize, e: usize },
+    /// interface: the first two fields of struct s change places
+    SwapFields { p: usize, s: usize },
 }
 
 impl Edit {
@@ -1430,7 +1435,9 @@ impl Edit {
             | Edit::AddInherent { p, .. }
             | Edit::RenameFn { p, .. }
             | Edit::RenameField { p, .. }
-            | Edit::AddDerive { p, .. } => *p,
+            | Edit::AddDerive { p, .. }
+            | Edit::SwapVariants { p, .. }
+            | Edit::SwapFields { p, .. } => *p,
         }
     }
 }
@@ -1503,7 +1510,17 @@ impl Project {
                     _ => continue,
                 }
             } else {
-                match p.below(13) {
+                match p.below(15) {
+                    13 if !pk.enums.is_empty() => {
+                        let e = p.usize(pk.enums.len());
+                        if pk.enums[e].variants.len() < 2 { continue }
+                        Edit::SwapVariants { p: pi, e }
+                    }
+                    14 if !pk.structs.is_empty() => {
+                        let s = p.usize(pk.structs.len());
+                        if pk.structs[s].fields.len() < 2 { continue }
+                        Edit::SwapFields { p: pi, s }
+                    }
                     0 => Edit::AddFn { p: pi },
                     1 if !pk.fns.is_empty() => {
                         let f = p.usize(pk.fns.len());
@@ -1708,6 +1725,38 @@ impl Project {
             }
             Edit::AddDerive { p, s } => {
                 self.pkgs[p].structs[s].derive_tostring = true;
+            }
+            Edit::SwapVariants { p, e } => {
+                if self.pkgs[p].enums[e].variants.len() >= 2 {
+                    self.pkgs[p].enums[e].variants.swap(0, 1);
+                    self.for_all_exprs(&mut |x| match x {
+                        Expr::MkEnum(ep, ei, v, _) if *ep == p && *ei == e => {
+                            if *v == 0 {
+                                *v = 1;
+                            } else if *v == 1 {
+                                *v = 0;
+                            }
+                        }
+                        Expr::Match(_, (ep, ei), arms, _) if *ep == p && *ei == e => {
+                            if arms.len() >= 2 {
+                                arms.swap(0, 1);
+                            }
+                        }
+                        _ => {}
+                    });
+                }
+            }
+            Edit::SwapFields { p, s } => {
+                if self.pkgs[p].structs[s].fields.len() >= 2 {
+                    self.pkgs[p].structs[s].fields.swap(0, 1);
+                    self.for_all_exprs(&mut |x| {
+                        if let Expr::MkStruct(sp, si, fields) = x {
+                            if *sp == p && *si == s && fields.len() >= 2 {
+                                fields.swap(0, 1);
+                            }
+                        }
+                    });
+                }
             }
         }
         let mut changed = Vec::new();
